@@ -90,6 +90,29 @@ func genAck(prop string, seed uint64, tier string) *Scenario {
 		}
 		body.Clients = append(body.Clients, cs)
 	}
+	if af := ssched.Sub(seed, "ackflags"); af.Intn(3) == 0 {
+		// drawn from a generator of its own: unlocks that pre-empt an ack-lock: unlock-first (the oldest
+		// hold, whoever took it: possibly the ack-lock whose acknowledgement is outstanding) and
+		// cancel-wait aimed at an ack-lock's LockId (possibly still queued)
+		for c := range body.Clients {
+			ops := body.Clients[c].Ops
+			for i := range ops {
+				if ops[i].Cmd != 2 {
+					continue
+				}
+				switch af.Intn(4) {
+				case 0:
+					ops[i].Flag |= protocol.UNLOCK_FLAG_UNLOCK_FIRST_LOCK_WHEN_UNLOCKED
+				case 1:
+					if lid > 0 {
+						ops[i].Flag |= protocol.UNLOCK_FLAG_CANCEL_WAIT_LOCK_WHEN_UNLOCKED
+						ops[i].Lid = 100 + 1 + af.Intn(lid)
+						ops[i].DelayMs = af.Intn(300)
+					}
+				}
+			}
+		}
+	}
 	nf := r.Intn(4)
 	for i := 0; i < nf; i++ {
 		f := AckFault{AtMs: 300 + r.Intn(5000), ForMs: 300 + r.Intn(6000)}
@@ -332,7 +355,8 @@ func runAck(w *World) {
 			w.probe("ack_waiting_replies")
 			pending := false
 			for _, q := range h.order {
-				if q == r || q.Op.Cmd != protocol.COMMAND_LOCK || q.Op.TFlag&tfAck == 0 || q.Op.Key != r.Op.Key || q.Op.Lid != r.Op.Lid || q.InvEv > rep.Ev {
+				first := r.Op.Cmd == protocol.COMMAND_UNLOCK && r.Op.Flag&protocol.UNLOCK_FLAG_UNLOCK_FIRST_LOCK_WHEN_UNLOCKED != 0 // addresses the oldest hold, whatever its LockId
+				if q == r || q.Op.Cmd != protocol.COMMAND_LOCK || q.Op.TFlag&tfAck == 0 || q.Op.Key != r.Op.Key || (q.Op.Lid != r.Op.Lid && !first) || q.InvEv > rep.Ev {
 					continue
 				}
 				if len(q.Replies) == 0 || q.Replies[0].Ev > r.InvEv {
